@@ -788,3 +788,21 @@ func constSMT(t *Term) string {
 }
 
 var _ = bits.Len
+
+// String renders a term for debugging.
+func (t *Term) String() string {
+	switch t.Op {
+	case OpConst:
+		return constSMT(t)
+	case OpVar:
+		return t.Name
+	}
+	s := "(" + opSMT[t.Op]
+	if t.Op == OpExtract || t.Op == OpZExt || t.Op == OpSExt || t.Op == OpUF {
+		s = fmt.Sprintf("(op%d:%s:%d:%d", t.Op, t.Name, t.Hi, t.Lo)
+	}
+	for _, a := range t.A {
+		s += " " + a.String()
+	}
+	return s + ")"
+}
